@@ -4,6 +4,7 @@ import re
 from .. import rx
 from ..lineflow import LineShape, origin, subject_of, token_class
 from ..matchflow import match_interp, match_scenarios
+from ..facts import AnalysisError
 from ..models import make_interp
 from ..values import NONE, AbsList, Hole, ListV, Obj, Str, Unknown
 from ._parser import HEX, instr_patterns
@@ -117,6 +118,10 @@ def run(ctx) -> None:
     from ..lineflow import match_calls
     witnesses = [pad + addr + ":\t" + b + tail for pad in ("  ", "", "      ") for addr in ("401008", "7ff6", "180157f0c")
                  for b in ("33 22", "00", "de ad be ef 00 11 22", "0f 1f 84 00 00 00 00") for tail in ("", " ", "  ", "\t", "   \t", "        ")]
+    # positive control (the rule's expected count is zero): a byte-less line regex MUST be caught by the witnesses
+    if not any(re.match(r"^ *([0-9a-fA-F]+):\t([^ ,]+) +\t?([^# ]+).*$", w) for w in witnesses) or \
+            not any(re.match(r"^ *([0-9a-fA-F]+):\t([^ ,]+).*$", w) for w in witnesses):
+        raise AnalysisError("C16.I7 positive control: the witness lines no longer exercise a byte-less line regex")
     seen7 = set()
     for site in sites:
         ao = origin(I, site.fields.get("addr"))
